@@ -16,7 +16,7 @@ Import ListNotations.
 From Femto Require Import Base.Num Ctl.Tok.
 
 (* ---------------- monad ---------------- *)
-Inductive exn := EValue | EFileNotFound | EUser | EType.
+Inductive exn := EValue | EFileNotFound | EUser | EType | EIndex.
 Inductive R (A : Type) := Ret (a : A) | Exc (e : exn).
 Arguments Ret {A} a. Arguments Exc {A} e.
 
@@ -86,6 +86,7 @@ Global Instance truthy_Q : Truthy Q := fun q => negb (Qeq_bool q 0).
 Global Instance truthy_Z : Truthy Z := fun z => negb (Z.eqb z 0).
 Global Instance truthy_str : Truthy string := fun s => negb (String.eqb s "").
 Global Instance truthy_list {A} : Truthy (list A) := fun l => match l with [] => false | _ => true end.
+Global Instance truthy_nat : Truthy nat := fun n => match n with O => false | _ => true end.
 
 Class NoneTest (A : Type) := is_none : A -> bool.
 Global Instance none_opt {A} : NoneTest (option A) := fun o => match o with None => true | Some _ => false end.
@@ -185,8 +186,6 @@ Global Instance div_QQ : PyDiv Q Q Q := Qdiv.
 Class PyFloorDiv (A B C : Type) := pyfloordiv : A -> B -> C.
 Global Instance fdiv_Z : PyFloorDiv Z Z Z := Z.div.
 Global Instance mod_ZZ : PyMod Z Z Z := Z.modulo.
-Global Instance add_ZQ : PyAdd Z Q Q := fun z q => (inject_Z z + q)%Q.
-Global Instance sub_ZQ : PySub Z Q Q := fun z q => (inject_Z z - q)%Q.
 Class PyAbs (A : Type) := pyabs : A -> A.
 Global Instance abs_Z : PyAbs Z := Z.abs.
 Global Instance abs_Q : PyAbs Q := Qabs.
